@@ -29,7 +29,7 @@ fn preload(ctx: &mut Ctx, rp: &str, n: usize) -> Vec<passkey_types::Passkey> {
 }
 
 fn client_vals(ctx: &mut Ctx, prehashed: bool) -> CPrfV {
-    let lens: &[usize] = if prehashed { &[32, 32, 32, 32, 0, 31, 33, 64] } else { &[0, 1, 5, 32, 33, 100] };
+    let lens: &[usize] = if prehashed { &[32, 32, 32, 32, 0, 31, 33, 64] } else { &[0, 1, 5, 32, 33, 100, 243, 244, 300, 1000] };
     let n = *ctx.rng.pick(lens);
     let first = ctx.rng.bytes(n);
     let second = if ctx.rng.bool() { let m = *ctx.rng.pick(lens); Some(ctx.rng.bytes(m)) } else { None };
@@ -107,9 +107,22 @@ pub fn gen(ctx: &mut Ctx) {
             }
         }
     }
-    // ---- inputs of every length are inputs: empty first / second input (hashed path), at registration and authentication
+    // ---- an empty per-credential key is malformed even when the allow list holds a descriptor with an empty id
+    for prehashed in [false, true] {
+        let w = World { kind: Kind::RefFull, counter_on: false, id_len: 16, hm: Hm::NoUv, preload: vec![] };
+        let v = |ctx: &mut Ctx| if prehashed { CPrfV { first: ctx.rng.bytes(32), second: None } } else { CPrfV { first: ctx.rng.bytes(7), second: None } };
+        let mut r = simple_reg(ctx, url, Some(rp)); r.ext = Some(CExt { cred_props: None, prf: Some(CPrfI { eval: None, by_cred: None }), prf_hashed: None });
+        let mut a = simple_auth(ctx, url, Some(rp)); a.allow = Some(vec![vec![]]); a.allow_refs = vec![0];
+        let inp = Some(CPrfI { eval: None, by_cred: Some(vec![("@0".into(), v(ctx)), ("".into(), v(ctx))]) });
+        a.ext = Some(CExt { cred_props: None, prf: if prehashed { None } else { inp.clone() }, prf_hashed: if prehashed { inp } else { None } });
+        let mut b = a.clone(); b.ext = Some(CExt { cred_props: None, prf: Some(CPrfI { eval: None, by_cred: Some(vec![("".into(), v(ctx))]) }), prf_hashed: None });
+        run_ccase(ctx, "C09", &w, &[cstep(COp::Reg(r)), cstep(COp::Auth(a)), cstep(COp::Auth(b))]);
+        ctx.stat("c09.client_corpus.empty_key_with_empty_id_descriptor");
+    }
+    // ---- inputs of every length are inputs: empty first / second input (hashed path), long inputs, at registration and authentication
     for hm in [Hm::NoUvMc, Hm::NoUv] {
-        for (first, second) in [(vec![], None), (vec![1u8, 2, 3], Some(vec![])), (vec![], Some(vec![])), (vec![], Some(vec![9u8; 40]))] {
+        for (first, second) in [(vec![], None), (vec![1u8, 2, 3], Some(vec![])), (vec![], Some(vec![])), (vec![], Some(vec![9u8; 40])),
+                                (ctx.rng.bytes(243), Some(ctx.rng.bytes(244))), (ctx.rng.bytes(244), None), (ctx.rng.bytes(5000), Some(ctx.rng.bytes(257)))] {
             let w = World { kind: Kind::RefFull, counter_on: false, id_len: 16, hm, preload: vec![] };
             let vals = CPrfV { first: first.clone(), second: second.clone() };
             let mut r = simple_reg(ctx, url, Some(rp));
